@@ -47,8 +47,9 @@ class Proxy(object):
             import errno
             say("x")
             raise OSError(errno.ENOSPC, "No space left on device (injected, once)")
-        say("f")
+        say("F")                 # the flush begins ...
         self.real.flush()
+        say("f")                 # ... and has returned: in between, the data may or may not have reached the kernel yet
         if spec.get("kill") == [self.n, "after_flush"]:
             die()
 
